@@ -9,13 +9,20 @@ import (
 	"crypto/md5" //nolint:gosec
 	"crypto/sha256"
 	"encoding/hex"
+	"encoding/json"
 	"errors"
 	"fmt"
+	"os"
+	"path/filepath"
 	"strings"
 
 	"github.com/dadrus/heimdall/internal/rules/config"
+	"github.com/dadrus/heimdall/internal/rules/rule"
 	"github.com/dadrus/heimdall/internal/zzverif/vf"
 )
+
+// UnknownMechanism is an authenticator id no catalogue knows.
+const UnknownMechanism = "nope"
 
 // ---------------------------------------------------------------- contents
 
@@ -57,21 +64,27 @@ func NumInvalidVariants() int { return len(invalidVariants) }
 // to reject carries an unsupported version (the real processor rejects it the same way).
 func ValidBytes(c int, rejected bool) []byte {
 	version := config.CurrentRuleSetVersion
-	if rejected {
+	authn := "a"
+
+	// what makes the processor reject the content: an unsupported version, or a mechanism the catalogue does not know
+	switch {
+	case rejected && c%2 == 1:
 		version = "0unsupported"
+	case rejected:
+		authn = UnknownMechanism
 	}
 
 	switch c % 3 {
 	case 0: // JSON (is YAML as well)
 		return []byte(fmt.Sprintf(
-			`{"version": %q, "name": "rs%d", "rules": [{"id": "r%d", "match": {"routes": [{"path": "/c%d/:x"}]}, "execute": [{"authenticator": "a"}]}]}`,
-			version, c, c, c))
+			`{"version": %q, "name": "rs%d", "rules": [{"id": "r%d", "match": {"routes": [{"path": "/c%d/:x"}]}, "execute": [{"authenticator": %q}]}]}`,
+			version, c, c, c, authn))
 	case 1:
-		return []byte(fmt.Sprintf("version: %q\nname: rs%d\nrules:\n- id: r%d\n  match:\n    routes:\n      - path: /c%d/:x\n  execute:\n    - authenticator: a\n",
-			version, c, c, c))
+		return []byte(fmt.Sprintf("version: %q\nname: rs%d\nrules:\n- id: r%d\n  match:\n    routes:\n      - path: /c%d/:x\n  execute:\n    - authenticator: %s\n",
+			version, c, c, c, authn))
 	default: // two rules, a comment
-		return []byte(fmt.Sprintf("# content %d\nversion: %q\nrules:\n- id: r%d\n  match:\n    routes:\n      - path: /c%d\n  execute:\n    - authenticator: a\n- id: q%d\n  match:\n    routes:\n      - path: /d%d/**\n    methods: [GET]\n  execute:\n    - authenticator: a\n    - authorizer: b\n",
-			c, version, c, c, c, c))
+		return []byte(fmt.Sprintf("# content %d\nversion: %q\nrules:\n- id: r%d\n  match:\n    routes:\n      - path: /c%d\n  execute:\n    - authenticator: %s\n- id: q%d\n  match:\n    routes:\n      - path: /d%d/**\n    methods: [GET]\n  execute:\n    - authenticator: a\n    - authorizer: b\n",
+			c, version, c, c, authn, c, c))
 	}
 }
 
@@ -139,6 +152,8 @@ type Recorder struct {
 	Undel   map[int]bool
 	// Classify, if set, replaces the default way a rule set is mapped to (content id, accepted)
 	Classify func(rs *config.RuleSet) (int, bool)
+	// Next, if set, is the real processor the calls are handed on to; its answer is the call's result
+	Next rule.SetProcessor
 	hashes   map[string]int
 	// Active is the ideal repository keyed by the raw source string
 	Active map[string]int
@@ -182,7 +197,19 @@ func (r *Recorder) load(kind string, rs *config.RuleSet) error {
 		c.Cid, c.Ok = r.Classify(rs)
 	} else {
 		c.Cid = r.CidOfHash(rs.Hash)
-		c.Ok = rs.Version == config.CurrentRuleSetVersion
+		c.Ok = rs.Version == config.CurrentRuleSetVersion && !usesUnknownMechanism(rs)
+	}
+
+	// with a real processor behind the recorder, it decides
+	if r.Next != nil {
+		var err error
+		if kind == "C" {
+			err = r.Next.OnCreated(rs)
+		} else {
+			err = r.Next.OnUpdated(rs)
+		}
+
+		c.Ok = err == nil
 	}
 
 	r.Calls = append(r.Calls, c)
@@ -196,12 +223,28 @@ func (r *Recorder) load(kind string, rs *config.RuleSet) error {
 	return nil
 }
 
+func usesUnknownMechanism(rs *config.RuleSet) bool {
+	for _, rl := range rs.Rules {
+		for _, step := range rl.Execute {
+			if step["authenticator"] == UnknownMechanism {
+				return true
+			}
+		}
+	}
+
+	return false
+}
+
 func (r *Recorder) OnCreated(rs *config.RuleSet) error { return r.load("C", rs) }
 func (r *Recorder) OnUpdated(rs *config.RuleSet) error { return r.load("U", rs) }
 
 func (r *Recorder) OnDeleted(rs *config.RuleSet) error {
 	c := r.call("D", rs)
 	c.Ok = !(c.Src == "" && !c.Pfx && r.Undel[c.N])
+
+	if r.Next != nil {
+		c.Ok = r.Next.OnDeleted(rs) == nil
+	}
 	r.Calls = append(r.Calls, c)
 
 	if !c.Ok {
@@ -305,4 +348,25 @@ func b2i(b bool) int {
 	}
 
 	return 0
+}
+
+// LoadCorpus reads extra regression cases for a stream from $VERIF_DIR/corpus/C18/<stream>.json
+// (a JSON array of cases in the driver's input format); they run right after the built-in corpus.
+func LoadCorpus[T any](stream string) []T {
+	dir := os.Getenv("VERIF_DIR")
+	if dir == "" {
+		return nil
+	}
+
+	raw, err := os.ReadFile(filepath.Join(dir, "corpus", "C18", stream+".json"))
+	if err != nil {
+		return nil
+	}
+
+	var cases []T
+	if err = json.Unmarshal(raw, &cases); err != nil {
+		panic(fmt.Sprintf("verif: corpus/C18/%s.json: %v", stream, err))
+	}
+
+	return cases
 }
